@@ -94,6 +94,16 @@ Theorem C19_unsupported_versions_rejected :
 Proof. exact unsupported_versions_rejected. Qed.
 Print Assumptions C19_unsupported_versions_rejected.
 
+(* the version classes, for EVERY integer: OSS versions are exactly 2..5, DSE versions exactly 0x41 and 0x42, and together they
+   are the supported versions (an unsupported number - 0x43, 0x7F, 6 - is neither OSS nor DSE) *)
+Theorem C19_version_classes :
+  (forall v : Z, ProtocolVersion_IsOss v = true <-> v = 2 \/ v = 3 \/ v = 4 \/ v = 5) /\
+  (forall v : Z, ProtocolVersion_IsDse v = true <-> v = 65 \/ v = 66) /\
+  (forall v : Z, ProtocolVersion_IsSupported v = orb (ProtocolVersion_IsOss v) (ProtocolVersion_IsDse v)) /\
+  (forall v : Z, andb (ProtocolVersion_IsOss v) (ProtocolVersion_IsDse v) = false).
+Proof. exact version_classes. Qed.
+Print Assumptions C19_version_classes.
+
 (* non-vacuity: the tables are populated, and a concrete instance of each premise exists *)
 Example C19_nonvacuous :
   (List.length int_code_types >= 10)%nat /\ (List.length str_code_types >= 5)%nat /\
